@@ -581,6 +581,16 @@ class W3TermsReader(base.TermsReader):
         fnum = self._fieldmap.get(fieldname, 65535)
         return pack_ushort(fnum) + tbytes
 
+    def _key_from(self, fieldname, prefix):
+        # Key of the first possible term at or after (fieldname, prefix). Field
+        # numbers are in field name order; if this segment has no terms in the
+        # field, start at the next field it does have terms in
+        if fieldname in self._fieldmap:
+            return self._keycoder(fieldname, prefix)
+        later = [num for name, num in iteritems(self._fieldmap)
+                 if name > fieldname]
+        return pack_ushort(min(later) if later else 65535)
+
     def _keydecoder(self, keybytes):
         fieldid = unpack_ushort(keybytes[:_SHORT_SIZE])[0]
         return self._fieldunmap[fieldid], keybytes[_SHORT_SIZE:]
@@ -605,7 +615,7 @@ class W3TermsReader(base.TermsReader):
         return (keydecoder(keybytes) for keybytes in self._tindex.keys())
 
     def terms_from(self, fieldname, prefix):
-        prefixbytes = self._keycoder(fieldname, prefix)
+        prefixbytes = self._key_from(fieldname, prefix)
         keydecoder = self._keydecoder
         return (keydecoder(keybytes) for keybytes
                 in self._tindex.keys_from(prefixbytes))
@@ -617,7 +627,7 @@ class W3TermsReader(base.TermsReader):
                 for keybytes, valbytes in self._tindex.items())
 
     def items_from(self, fieldname, prefix):
-        prefixbytes = self._keycoder(fieldname, prefix)
+        prefixbytes = self._key_from(fieldname, prefix)
         tidecoder = W3TermInfo.from_bytes
         keydecoder = self._keydecoder
         return ((keydecoder(keybytes), tidecoder(valbytes))
